@@ -9,4 +9,4 @@ TRUSTED = simcheck.TRUSTED_SIM
 def run(ctx):
     simcheck.run_sim_property(ctx, [], simmon.mon_c10,
                               "a policy's schedule() changed the live cluster or a task, answered a task twice or not at all, "
-                              "or returned a placement naming no pool / a time before now")
+                              "or returned a placement naming no pool / a time before now", machine=False)
